@@ -346,4 +346,16 @@ theorem map_toNat_inj : ∀ (a b : List UInt8), a.map UInt8.toNat = b.map UInt8.
     simp only [List.map_cons, List.cons.injEq] at h
     rw [UInt8.toNat_inj.mp h.1, map_toNat_inj a b h.2]
 
+
+theorem upperHex_chars : ∀ (bs : List Nat), (∀ b ∈ bs, b < 256) → ∀ c ∈ Spec.upperHex bs, (48 ≤ c ∧ c ≤ 57) ∨ (65 ≤ c ∧ c ≤ 70)
+  | [], _, c, hc => by simp [Spec.upperHex] at hc
+  | b :: rest, hb, c, hc => by
+    have hd : ∀ n, n < 16 → (48 ≤ Spec.upperHexDigit n ∧ Spec.upperHexDigit n ≤ 57) ∨ (65 ≤ Spec.upperHexDigit n ∧ Spec.upperHexDigit n ≤ 70) := by decide
+    have hlt := hb b (List.mem_cons_self ..)
+    simp only [Spec.upperHex, List.mem_cons] at hc
+    rcases hc with rfl | rfl | hc
+    · exact hd _ (by omega)
+    · exact hd _ (Nat.mod_lt _ (by decide))
+    · exact upperHex_chars rest (fun x hx => hb x (List.mem_cons_of_mem _ hx)) c hc
+
 end Nstd.Codec
